@@ -13,6 +13,57 @@ ENUM_SHAPES = [(2, 10), (2, 11), (2, 12), (3, 7), (4, 5), (4, 6), (5, 5), (6, 4)
 OTHER_SHAPES = [(2, 10), (2, 11), (2, 12), (2, 13), (3, 7), (3, 8), (4, 5), (4, 6), (5, 5), (5, 6), (6, 5), (7, 4), (8, 4), (9, 4), (11, 4), (16, 3), (17, 3), (64, 2), (70, 2), (3, 9), (2, 14)]
 
 
+REVERSALS = [(0, 1), (0, 2), (1, 3), (0, 1, 2, 3), (0,), (1,), (2, 3)]
+
+
+def symmetric_game(st, rng, shape, prob):
+    """A predicate that is invariant under a relabelling (reversal of some of the four index axes, or a
+    simultaneous cyclic shift of both answer alphabets), with an optimal strategy pair planted on interior
+    answers.  Relabelling symmetries are what 'enumerate one representative per orbit' shortcuts rely on; the
+    planted optimum sits where an orbit argument that is only valid for two answers loses it.  Returns
+    (prob, pred, description); the questions' distribution is symmetrised too when question axes take part."""
+    a_out, b_out, a_in, b_in = shape
+    base = rng.random(shape) * (0.6 if st.draw(2) else 0.0)
+    if st.draw(3) == 0:
+        base = np.maximum(base, (rng.random(shape) < 0.2).astype(float) * 0.7)
+    f = [int(v) for v in rng.integers(0, a_out, size=a_in)]
+    g = [int(v) for v in rng.integers(0, b_out, size=b_in)]
+    if st.draw(4) != 0:  # interior answers to the first (and last) question of both players
+        f[0] = f[-1] = (a_out - 1) // 2 if a_out % 2 else a_out // 2 - st.draw(2)
+        g[0] = g[-1] = (b_out - 1) // 2 if b_out % 2 else b_out // 2 - st.draw(2)
+    for x in range(a_in):
+        for y in range(b_in):
+            base[f[x], g[y], x, y] = 1.0
+    kind = st.weighted([("reverse", 4), ("cyclic", 2)]) if a_out == b_out and a_out > 2 else "reverse"
+    if kind == "reverse":
+        axes = REVERSALS[st.draw(len(REVERSALS))]
+        idx = tuple(slice(None, None, -1) if k in axes else slice(None) for k in range(4))
+        pred = np.maximum(base, base[idx])
+        pidx = tuple(slice(None, None, -1) if k + 2 in axes else slice(None) for k in range(2))
+        prob = (prob + prob[pidx]) / 2
+        desc = {"symmetry": "reverse", "axes": list(axes)}
+    else:
+        sign = 1 if st.draw(2) else -1
+        pred = base
+        for k in range(1, a_out):
+            pred = np.maximum(pred, np.roll(np.roll(base, k, axis=0), sign * k, axis=1))
+        desc = {"symmetry": "cyclic", "sign": sign}
+    desc["planted"] = [f, g]
+    return prob / prob.sum(), pred, desc
+
+
+INT_DTYPES = ["int64", "bool", "int8", "uint8", "int32"]
+
+
+def maybe_integer_dtype(st, pred, p=4):
+    """A 0/1 predicate typed the way a caller who writes it down by hand would have it: an integer or bool
+    array.  The game is the same game."""
+    if st.draw(p) == 0 and np.all((pred == 0) | (pred == 1)):
+        dt = INT_DTYPES[st.draw(len(INT_DTYPES))]
+        return pred.astype(dt), dt
+    return pred, None
+
+
 def draw_game(st, like=None):
     """A game whose classical_value takes the pool branch.  Returns
     (prob_mat, pred_mat, meta).  With `like` (the meta of an earlier game) the new
@@ -31,7 +82,7 @@ def draw_game(st, like=None):
     else:
         a_out, a_in, b_out, b_in = oo, oi, eo, ei
     rng = st.nprng()
-    pk = st.weighted([("binary", 3), ("planted", 5), ("fractional", 3), ("sparse_binary", 2), ("mixed", 1)])
+    pk = st.weighted([("binary", 3), ("planted", 5), ("fractional", 3), ("sparse_binary", 2), ("mixed", 1), ("symmetric", 3)])
     shape = (a_out, b_out, a_in, b_in)
     planted = None
     if pk == "planted":
@@ -74,6 +125,8 @@ def draw_game(st, like=None):
         pred = (rng.random(shape) < 0.15).astype(float)
     elif pk == "fractional":
         pred = rng.random(shape)
+    elif pk == "symmetric":
+        pred = None
     else:
         pred = np.where(rng.random(shape) < 0.5, rng.random(shape), (rng.random(shape) < 0.5).astype(float))
     qk = st.weighted([("uniform", 3), ("dirichlet", 3), ("with_zeros", 3)])
@@ -88,9 +141,17 @@ def draw_game(st, like=None):
             if prob.sum() == 0:
                 prob[0, 0] = 1.0
         prob = prob / prob.sum()
+    sym = None
+    if pk == "symmetric":
+        prob, pred, sym = symmetric_game(st, rng, shape, prob)
+    pred, int_dtype = maybe_integer_dtype(st, pred, 5)
     meta = {"shape": list(shape), "pred_kind": pk, "prob_kind": qk, "enumerated": "alice" if alice_enumerated else "bob", "strategies": s_enum, "_shape_key": [eo, ei, oo, oi, alice_enumerated]}
     if planted is not None:
         meta["planted"] = planted
+    if sym is not None:
+        meta["symmetric"] = sym
+    if int_dtype is not None:
+        meta["pred_dtype"] = int_dtype
     return prob, pred, meta
 
 
